@@ -72,7 +72,7 @@ def init_refused(s0: int, clear: bool, target: int, prefix: int) -> bool:
 
 def cfg_sha1_p0(s0: int, s1: int, s2: int) -> bool:
     """
-    pre: 0 <= s0 <= 70000 and 1 <= s1 <= 70000 and 1 <= s2 <= 70000
+    pre: 0 <= s0 <= 3 and 1 <= s1 <= 70000 and 1 <= s2 <= 3
     post: _
     """
     return _cfg('sha1', 0, s0, s1, s2)
@@ -80,7 +80,7 @@ def cfg_sha1_p0(s0: int, s1: int, s2: int) -> bool:
 
 def cfg_sha1_p1(s0: int, s1: int, s2: int) -> bool:
     """
-    pre: 0 <= s0 <= 70000 and 1 <= s1 <= 70000 and 1 <= s2 <= 70000
+    pre: 0 <= s0 <= 3 and 1 <= s1 <= 70000 and 1 <= s2 <= 3
     post: _
     """
     return _cfg('sha1', 1, s0, s1, s2)
@@ -88,7 +88,7 @@ def cfg_sha1_p1(s0: int, s1: int, s2: int) -> bool:
 
 def cfg_sha1_p2(s0: int, s1: int, s2: int) -> bool:
     """
-    pre: 0 <= s0 <= 70000 and 1 <= s1 <= 70000 and 1 <= s2 <= 70000
+    pre: 0 <= s0 <= 3 and 1 <= s1 <= 70000 and 1 <= s2 <= 3
     post: _
     """
     return _cfg('sha1', 2, s0, s1, s2)
@@ -96,7 +96,7 @@ def cfg_sha1_p2(s0: int, s1: int, s2: int) -> bool:
 
 def cfg_sha1_p3(s0: int, s1: int, s2: int) -> bool:
     """
-    pre: 0 <= s0 <= 70000 and 1 <= s1 <= 70000 and 1 <= s2 <= 70000
+    pre: 0 <= s0 <= 3 and 1 <= s1 <= 70000 and 1 <= s2 <= 3
     post: _
     """
     return _cfg('sha1', 3, s0, s1, s2)
@@ -104,7 +104,7 @@ def cfg_sha1_p3(s0: int, s1: int, s2: int) -> bool:
 
 def cfg_sha256_p0(s0: int, s1: int, s2: int) -> bool:
     """
-    pre: 0 <= s0 <= 70000 and 1 <= s1 <= 70000 and 1 <= s2 <= 70000
+    pre: 0 <= s0 <= 3 and 1 <= s1 <= 70000 and 1 <= s2 <= 3
     post: _
     """
     return _cfg('sha256', 0, s0, s1, s2)
@@ -112,7 +112,7 @@ def cfg_sha256_p0(s0: int, s1: int, s2: int) -> bool:
 
 def cfg_sha256_p1(s0: int, s1: int, s2: int) -> bool:
     """
-    pre: 0 <= s0 <= 70000 and 1 <= s1 <= 70000 and 1 <= s2 <= 70000
+    pre: 0 <= s0 <= 3 and 1 <= s1 <= 70000 and 1 <= s2 <= 3
     post: _
     """
     return _cfg('sha256', 1, s0, s1, s2)
@@ -120,7 +120,7 @@ def cfg_sha256_p1(s0: int, s1: int, s2: int) -> bool:
 
 def cfg_sha256_p2(s0: int, s1: int, s2: int) -> bool:
     """
-    pre: 0 <= s0 <= 70000 and 1 <= s1 <= 70000 and 1 <= s2 <= 70000
+    pre: 0 <= s0 <= 3 and 1 <= s1 <= 70000 and 1 <= s2 <= 3
     post: _
     """
     return _cfg('sha256', 2, s0, s1, s2)
@@ -128,7 +128,7 @@ def cfg_sha256_p2(s0: int, s1: int, s2: int) -> bool:
 
 def cfg_sha256_p3(s0: int, s1: int, s2: int) -> bool:
     """
-    pre: 0 <= s0 <= 70000 and 1 <= s1 <= 70000 and 1 <= s2 <= 70000
+    pre: 0 <= s0 <= 3 and 1 <= s1 <= 70000 and 1 <= s2 <= 3
     post: _
     """
     return _cfg('sha256', 3, s0, s1, s2)
